@@ -1,8 +1,8 @@
-(** C07 — a request naming a message that is not live (any handle but "latest") is answered NotExist by get, mark-seen and remove, and changes nothing *)
+(** C07 — abstract store: a request naming a message that is not live is answered NotExist by mark-seen and remove for every handle, by get for every handle but the literal "latest", and changes nothing *)
 From IV Require Import Base.Bytes Model.StoreSpec Proofs.StoreSpecOrder.
-Theorem missing_is_not_exist : forall cfg st mb h, h <> Latest -> find_h mb h (live st) = None ->
-  snd (fst (exec_spec cfg st (Get mb h))) = OGet NotExist /\
+Theorem missing_is_not_exist : forall cfg st mb h, find_h mb h (live st) = None ->
+  (h <> Latest -> snd (fst (exec_spec cfg st (Get mb h))) = OGet NotExist) /\
   exec_spec cfg st (Seen mb h) = (st, OUnit NotExist, []) /\
   exec_spec cfg st (Remove mb h) = (st, OUnit NotExist, []).
-Proof. exact StoreSpecOrder.missing_is_not_exist. Qed.
+Proof. exact StoreSpecOrder.missing_is_not_exist'. Qed.
 Print Assumptions missing_is_not_exist.
